@@ -1,4 +1,5 @@
 import re
+from operator import itemgetter
 from typing import Iterable, List, Match, NamedTuple, Optional, Tuple, Union
 
 from .errors import MarkupError
@@ -108,18 +109,22 @@ def render(markup: str, style: Union[str, Style] = "", emoji: bool = True) -> Te
     append = text.append
     normalize = Style.normalize
 
-    style_stack: List[Tuple[int, Tag]] = []
+    # (offset, opening order, tag) of the tags that are open
+    style_stack: List[Tuple[int, int, Tag]] = []
     pop = style_stack.pop
+    tag_count = 0
 
-    spans: List[Span] = []
+    # (opening order of the tag, span): spans are applied in list order (later wins), so they are
+    # finally put in the order their tags were opened
+    spans: List[Tuple[int, Span]] = []
     append_span = spans.append
 
     _Span = Span
     _Tag = Tag
 
-    def pop_style(style_name: str) -> Tuple[int, Tag]:
+    def pop_style(style_name: str) -> Tuple[int, int, Tag]:
         """Pop tag matching given style name."""
-        for index, (_, tag) in enumerate(reversed(style_stack), 1):
+        for index, (_, _, tag) in enumerate(reversed(style_stack), 1):
             if tag.name == style_name:
                 return pop(-index)
         raise KeyError(style_name)
@@ -133,30 +138,31 @@ def render(markup: str, style: Union[str, Style] = "", emoji: bool = True) -> Te
                 if style_name:  # explicit close
                     style_name = normalize(style_name)
                     try:
-                        start, open_tag = pop_style(style_name)
+                        start, order, open_tag = pop_style(style_name)
                     except KeyError:
                         raise MarkupError(
                             f"closing tag '{tag.markup}' at position {position} doesn't match any open tag"
                         ) from None
                 else:  # implicit close
                     try:
-                        start, open_tag = pop()
+                        start, order, open_tag = pop()
                     except IndexError:
                         raise MarkupError(
                             f"closing tag '[/]' at position {position} has nothing to close"
                         ) from None
 
-                append_span(_Span(start, len(text), str(open_tag)))
+                append_span((order, _Span(start, len(text), str(open_tag))))
             else:  # Opening tag
                 normalized_tag = _Tag(normalize(tag.name), tag.parameters)
-                style_stack.append((len(text), normalized_tag))
+                style_stack.append((len(text), tag_count, normalized_tag))
+                tag_count += 1
 
     text_length = len(text)
     while style_stack:
-        start, tag = style_stack.pop()
-        append_span(_Span(start, text_length, str(tag)))
+        start, order, tag = style_stack.pop()
+        append_span((order, _Span(start, text_length, str(tag))))
 
-    text.spans = sorted(spans)
+    text.spans = [span for _, span in sorted(spans, key=itemgetter(0))]
     return text
 
 
